@@ -69,9 +69,14 @@ def load_cov(orb, data):
     return cov
 
 
-def dump_cov(cov):
+def dump_cov(cov, frame=None):
+    """
+    Args:
+        cov (Cov)
+        frame (Frame): frame of the state vector the covariance is written with
+    """
     text = "\n"
-    if cov.frame != cov.orb.frame:
+    if cov.frame != (cov.orb.frame if frame is None else frame):
         frame = cov.frame
         if frame == "QSW":
             frame = "RSW"
